@@ -1,8 +1,82 @@
-(* Props/C14.v — property theorems only. *)
-From Verif Require Import Base.Str Syntax.Schema Syntax.Walk Gen.Schema Gen.WalkTable Proofs.WalkTableOk.
+(* Props/C14.v — property theorems only.
+   Model: Syntax/Walk.v (syntax.Walk / syntax.Preorder over generic trees, driven by a walk table).
+   Gen/Schema.v (reflection) and Gen/WalkTable.v (probing of the running Walk) are regenerated on every run. *)
+From Verif Require Import Base.Str Syntax.Schema Syntax.Walk Gen.Schema Gen.WalkTable
+  Proofs.WalkProofs Proofs.WalkTableOk.
+From Coq Require Import Permutation.
 
-(* The walk table probed from the running syntax.Walk covers, for every node kind that Walk
-   handles, exactly the node-reaching field paths of the schema reflected from the running code. *)
+(* The table probed from the running syntax.Walk covers, for every node kind Walk has a case for,
+   exactly the node-reaching field paths of the schema reflected from the running code
+   (finite check, re-run by the kernel on every regeneration). *)
 Theorem walk_table_complete : table_ok gen_schema gen_walk_table = true.
 Proof. exact gen_walk_table_ok. Qed.
 Print Assumptions walk_table_complete.
+
+(* "BraceExp" (never produced by the parser) is the only node kind Walk has no case for. *)
+Theorem walk_panics_only_on_BraceExp :
+  panic_kinds gen_schema gen_walk_table = [[66; 114; 97; 99; 101; 69; 120; 112]%N].
+Proof. exact gen_walk_panic_kinds. Qed.
+Print Assumptions walk_panics_only_on_BraceExp.
+
+(* For ANY schema and table with table_ok, any well-typed tree, any stateful callback, any fuel:
+   when Walk returns, its callback sequence satisfies WalkSpec: f(node) first; if f answered false,
+   nothing else (children skipped, no nil); otherwise every child of the node (kids = all nodes
+   reachable through the exported fields without crossing another node, each exactly once: a
+   permutation) is walked recursively, f(nil) is called exactly once, and the deferred children
+   (trailing comments of Stmt/CaseItem/ArrayElem) are walked right after that nil. *)
+Theorem C14_walk_exactly_once :
+  forall (sch : schema) (tbl : walk_table), table_ok sch tbl = true ->
+  forall (S : Type) (cb : S -> ev -> S * bool) (fuel : nat) (s : S) (v : value) (sid : nat) (t : list ev) (s' : S),
+    has_type sch (TStruct sid) v = true -> is_node sch sid = true ->
+    walk tbl cb fuel s v = Ok (t, s') -> WalkSpec sch cb s v t s'.
+Proof. intros sch tbl Tok S cb. exact (walk_spec sch tbl Tok cb). Qed.
+Print Assumptions C14_walk_exactly_once.
+
+(* Unpruned: the non-nil callbacks are a permutation of ALL nodes of the tree (each exactly once),
+   the number of nil callbacks equals the number of nodes, and the root comes first. *)
+Theorem C14_walk_unpruned_all_nodes_once :
+  forall (sch : schema) (tbl : walk_table), table_ok sch tbl = true ->
+  forall (fuel : nat) (v : value) (sid : nat) (t : list ev) (u : unit),
+    has_type sch (TStruct sid) v = true -> is_node sch sid = true ->
+    walk_all tbl fuel v = Ok (t, u) ->
+    Permutation (somes t) (nodes_in sch v) /\ count_none t = length (nodes_in sch v) /\
+    exists t', t = Some v :: t'.
+Proof. exact walk_all_exactly_once. Qed.
+Print Assumptions C14_walk_unpruned_all_nodes_once.
+
+(* Preorder: the consumer (an arbitrary state machine [yield]) ends in exactly the state of being fed
+   the node sequence of the unpruned Walk and never being called again once it answered false. *)
+Theorem C14_preorder :
+  forall (tbl : walk_table) (Y : Type) (yield : Y -> value -> Y * bool) (fuel : nat) (v : value) (t : list ev) (u : unit),
+    walk_all tbl fuel v = Ok (t, u) ->
+    forall y : Y, exists t', preorder yield tbl fuel y v = Ok (t', feed yield (true, y) (somes t)).
+Proof. intros tbl Y yield fuel v t u W y. exact (preorder_feeds_walk_order tbl yield fuel v t u W (true, y)). Qed.
+Print Assumptions C14_preorder.
+
+(* The model's two artificial results are unreachable: on a well-typed tree with fuel above its height
+   the walk never reports an ill-typed input or exhausted fuel (it returns, or panics like the code). *)
+Theorem C14_walk_no_model_error :
+  forall (sch : schema) (tbl : walk_table), table_ok sch tbl = true ->
+  forall (S : Type) (cb : S -> ev -> S * bool) (fuel : nat) (s : S) (v : value) (sid : nat),
+    has_type sch (TStruct sid) v = true -> is_node sch sid = true -> (height v < fuel)%nat ->
+    forall e, walk tbl cb fuel s v <> Err e.
+Proof. intros sch tbl Tok S cb. exact (walk_no_err sch tbl Tok cb). Qed.
+Print Assumptions C14_walk_no_model_error.
+
+(* The same for the code as it runs now: the generated schema and table. *)
+Theorem C14_walk_exactly_once_running_code :
+  forall (S : Type) (cb : S -> ev -> S * bool) (fuel : nat) (s : S) (v : value) (sid : nat) (t : list ev) (s' : S),
+    has_type gen_schema (TStruct sid) v = true -> is_node gen_schema sid = true ->
+    walk gen_walk_table cb fuel s v = Ok (t, s') -> WalkSpec gen_schema cb s v t s'.
+Proof. intros S cb. exact (walk_spec gen_schema gen_walk_table gen_walk_table_ok cb). Qed.
+Print Assumptions C14_walk_exactly_once_running_code.
+
+(* Non-vacuity: a schema/table/tree satisfying every hypothesis, with trailing comments deferred past the nil. *)
+Example C14_nonvacuous :
+  table_ok Mini.sch Mini.tbl = true /\ has_type Mini.sch (TStruct 0) Mini.tree = true /\
+  exists t, walk_all Mini.tbl 10 Mini.tree = Ok (t, tt) /\ length (somes t) = 6%nat.
+Proof.
+  split; [exact Mini.tbl_ok|]. split; [exact Mini.tree_typed|].
+  eexists. split; [exact Mini.tree_walk|reflexivity].
+Qed.
+Print Assumptions C14_nonvacuous.
